@@ -14,6 +14,8 @@ F = fractions.Fraction
 
 NAMES = ['a', 'b', 'c', 'd', 'x', 'y', 'n', 'm', 'i', 'j', 'k', 't', 'v', 'w', 'u', 'z']
 NID = {n: i for i, n in enumerate(NAMES)}
+LITS = ['_lit%d' % i for i in range(24)]      # reserved variables that stand for decimal float literals (typed model)
+NID.update({n: 100 + i for i, n in enumerate(LITS)})
 SCALARS = ['a', 'b', 'c', 'd', 'x', 'y']
 INTS = ['n', 'm']
 INDICES = ['i', 'j', 'k']
@@ -24,6 +26,36 @@ BOPS = {'add': 'BAdd', 'sub': 'BSub', 'mul': 'BMul', 'div': 'BDiv', 'min': 'BMin
         'floordiv': 'BFloorDiv', 'lt': '(BCmp OLt)', 'le': '(BCmp OLe)', 'gt': '(BCmp OGt)', 'ge': '(BCmp OGe)',
         'eq': '(BCmp OEq)', 'ne': '(BCmp ONe)', 'and': 'BAnd', 'or': 'BOr'}
 CMPS = ['lt', 'le', 'gt', 'ge', 'eq', 'ne']
+
+
+# name-coincidence family: formulas are generated over NAMES; RENAME maps a model name to the name the implementation
+# sees (a parameter called `select`, `less`, `builtins`, `array` ...).  Set for the duration of one case by `renaming`.
+RENAME = {}
+
+
+class renaming:
+    def __init__(self, m):
+        self.m = dict(m or {})
+
+    def __enter__(self):
+        self.old = dict(RENAME)
+        RENAME.clear()
+        RENAME.update(self.m)
+
+    def __exit__(self, *a):
+        RENAME.clear()
+        RENAME.update(self.old)
+
+
+def rn(x):
+    return RENAME.get(x, x)
+
+
+def unrn(x):
+    for k, v in RENAME.items():
+        if v == x:
+            return k
+    return x
 
 
 def is_dyadic(q):
@@ -55,7 +87,7 @@ def to_str(e):
     if k == 'nan':
         return 'nan'
     if k == 'v':
-        return e[1]
+        return rn(e[1])
     if k == 'u':
         op, a = e[1], to_str(e[2])
         if op == 'neg':
@@ -77,9 +109,9 @@ def to_str(e):
             return 'Piecewise((%s, %s))' % (to_str(e[2]), to_str(e[1]))
         return 'Piecewise((%s, %s), (%s, True))' % (to_str(e[2]), to_str(e[1]), to_str(e[3]))
     if k == 'sum':
-        return 'Sum(%s, (%s, %s, %s))' % (to_str(e[4]), e[1], to_str(e[2]), to_str(e[3]))
+        return 'Sum(%s, (%s, %s, %s))' % (to_str(e[4]), rn(e[1]), to_str(e[2]), to_str(e[3]))
     if k == 'idx':
-        return '%s[%s]' % (e[1], to_str(e[2]))
+        return '%s[%s]' % (rn(e[1]), to_str(e[2]))
     if k == 'ibc':
         return 'IndexedBroadcast(%s, (%d,), %s)' % (to_str(e[1]), e[2], to_str(e[3]))
     raise ValueError(e)
@@ -98,7 +130,7 @@ def to_sympy(e):
     if k == 'nan':
         return sympy.nan
     if k == 'v':
-        return sympy.Symbol(e[1])
+        return sympy.Symbol(rn(e[1]))
     if k == 'u':
         op, a = e[1], to_sympy(e[2])
         if op == 'neg':
@@ -122,9 +154,9 @@ def to_sympy(e):
             return sympy.Piecewise((to_sympy(e[2]), to_sympy(e[1])))
         return sympy.Piecewise((to_sympy(e[2]), to_sympy(e[1])), (to_sympy(e[3]), True))
     if k == 'sum':
-        return sympy.Sum(to_sympy(e[4]), (sympy.Symbol(e[1]), to_sympy(e[2]), to_sympy(e[3])))
+        return sympy.Sum(to_sympy(e[4]), (sympy.Symbol(rn(e[1])), to_sympy(e[2]), to_sympy(e[3])))
     if k == 'idx':
-        return sympy.IndexedBase(e[1])[to_sympy(e[2])]
+        return sympy.IndexedBase(rn(e[1]))[to_sympy(e[2])]
     if k == 'ibc':
         return IndexedBroadcast(to_sympy(e[1]), (e[2],), to_sympy(e[3]))
     raise ValueError(e)
@@ -160,9 +192,9 @@ def from_sympy(x):
         if isinstance(x, sympy.Float):
             return ['c', str(F(float(x))), 'f']
         if isinstance(x, sympy.Symbol):
-            if x.name not in NID:
+            if unrn(x.name) not in NID:
                 raise Unreadable(x.name)
-            return ['v', x.name]
+            return ['v', unrn(x.name)]
         if isinstance(x, sympy.Add):
             return fold('add', [rd(a) for a in x.args])
         if isinstance(x, sympy.Mul):
@@ -198,11 +230,11 @@ def from_sympy(x):
             return out
         if isinstance(x, sympy.Sum) and len(x.limits) == 1 and len(x.limits[0]) == 3:
             i, lo, hi = x.limits[0]
-            if i.name not in NID:
+            if unrn(i.name) not in NID:
                 raise Unreadable(i.name)
-            return ['sum', i.name, rd(lo), rd(hi), rd(x.function)]
-        if isinstance(x, sympy.Indexed) and len(x.indices) == 1 and str(x.base) in BASES:
-            return ['idx', str(x.base), rd(x.indices[0])]
+            return ['sum', unrn(i.name), rd(lo), rd(hi), rd(x.function)]
+        if isinstance(x, sympy.Indexed) and len(x.indices) == 1 and unrn(str(x.base)) in BASES:
+            return ['idx', unrn(str(x.base)), rd(x.indices[0])]
         if isinstance(x, IndexedBroadcast):
             return ['ibc', rd(x.args[0]), int(x.args[1][0]), rd(x.args[2])]
         raise Unreadable(type(x).__name__)
@@ -439,16 +471,39 @@ def tjoin(a, b):
     return 'float' if 'float' in (a, b) else 'time' if 'time' in (a, b) else 'int'
 
 
-def typed_eval(e, tsc, tvc):
-    """mirror of ModelT.evalT: value AND Python type (int | time | float) of the formula as the exact-rational lambda
-    computes it (Rational constant -> TimeType, int / int -> float, int ** negative -> float, floor/ceiling/comparison
-    -> int, Piecewise/Min/Max -> type of the selected operand unless a float is among the candidates).
+def abstract_literals(e, tsc):
+    """the convention of ModelT: every decimal float literal becomes a reserved variable bound to (value, float).
+    -> (formula without 'f' constants, extended typed scope); None when there are more literals than reserved names"""
+    tsc = dict(tsc)
+    table = {}
+
+    def go(x):
+        if x[0] == 'c' and x[2] == 'f':
+            q = F(x[1])
+            if q not in table:
+                if len(table) >= len(LITS):
+                    raise EvalError('lits')
+                table[q] = LITS[len(table)]
+                tsc[table[q]] = (q, 'float')
+            return ['v', table[q]]
+        return [go(y) if isinstance(y, list) else y for y in x]
+    try:
+        return go(e), tsc
+    except EvalError:
+        return None
+
+
+def typed_eval(e, tsc, tvc, exact=True):
+    """mirror of ModelT.evalT: value AND Python type (int | time | float) of the formula as the lambda computes it
+    (non-integer Rational constant -> TimeType in the exact mode, float in the numeric mode; int / int -> float,
+    int ** negative -> float, floor/ceiling/comparison -> int, Min/Max -> type of the selected operand unless a float is
+    among the candidates, Piecewise = numpy.select with a float default -> float).
     tsc: name -> (Fraction, type); tvc: base -> (list, type).  -> (value, type); raises EvalError"""
     def ev(e, sc):
         k = e[0]
         if k == 'c':
             q = F(e[1])
-            return q, ('float' if e[2] == 'f' else 'int' if q.denominator == 1 else 'time')
+            return q, ('float' if e[2] == 'f' else 'int' if q.denominator == 1 else 'time' if exact else 'float')
         if k == 'nan':
             raise EvalError('nan')
         if k == 'v':
@@ -479,7 +534,7 @@ def typed_eval(e, tsc, tvc):
         if k == 'ite':
             c, _ = ev(e[1], sc)
             v, t = ev(e[2], sc) if c != 0 else ev(e[3], sc)
-            return v, t
+            return v, 'float'
         if k == 'sum':
             (lo, _), (hi, _) = ev(e[2], sc), ev(e[3], sc)
             if lo.denominator != 1 or hi.denominator != 1:
@@ -510,7 +565,8 @@ def typed_eval(e, tsc, tvc):
 
 def typed_scope(scope):
     """harness scope -> (tsc, tvc) for typed_eval"""
-    base = {'int': 'int', 'npint': 'int', 'float': 'float', 'npfloat': 'float', 'time': 'time', 'frac': 'time'}
+    base = {'int': 'int', 'npint': 'int', 'float': 'float', 'npfloat': 'float', 'npf32': 'float', 'time': 'time',
+            'frac': 'time'}
     tsc, tvc = {}, {}
     for x, tv in scope.items():
         if tv['ty'] in ('arri', 'arrf'):
